@@ -156,8 +156,12 @@ type Rig struct {
 	pauseAddr *oid.Address
 	paused    chan struct{}
 	resume    chan struct{}
-	// Parked holds the addresses of the blob write the flusher is (was last) parked in front of.
-	Parked []oid.Address
+	// Parked holds the addresses of the blob write the flusher is (was last)
+	// parked in front of; ParkedNow says whether it is parked right now (both
+	// guarded by the rig lock).
+	Parked    []oid.Address
+	ParkedNow bool
+	resumed   bool
 }
 
 // Dir returns the live shard directory.
@@ -222,6 +226,11 @@ func (r *Rig) OpenAgain() error { return r.open() }
 
 // Cleanup closes the shard and removes everything.
 func (r *Rig) Cleanup() {
+	if r.resume != nil && !r.resumed {
+		// a failing case may leave the flusher parked
+		r.resumed = true
+		close(r.resume)
+	}
 	if r.Sh != nil {
 		_ = r.Sh.Close()
 		r.Sh = nil
@@ -255,11 +264,13 @@ func (r *Rig) before(comp, m string, addrs []oid.Address) {
 			if a == *r.pauseAddr {
 				r.pauseAddr = nil
 				r.Parked = append([]oid.Address(nil), addrs...)
+				r.ParkedNow = true
 				paused, resume := r.paused, r.resume
 				r.mu.Unlock()
 				paused <- struct{}{}
 				<-resume
 				r.mu.Lock()
+				r.ParkedNow = false
 				break
 			}
 		}
@@ -369,6 +380,7 @@ func (r *Rig) ArmPause(addr oid.Address) {
 	r.pauseAddr = &addr
 	r.paused = make(chan struct{})
 	r.resume = make(chan struct{})
+	r.resumed = false
 	r.mu.Unlock()
 }
 
@@ -396,6 +408,7 @@ func (r *Rig) WaitPaused() bool {
 
 // Resume releases the parked flusher and waits until the workers are idle.
 func (r *Rig) Resume() {
+	r.resumed = true
 	r.resume <- struct{}{}
 	synctest.Wait()
 }
